@@ -842,3 +842,76 @@ Proof.
   cbn [fpart] in Et. rewrite app_nil_r in Et. rewrite Et. eexists. split; [reflexivity|].
   unfold Path, QueryString. cbn [u_host u_path u_queryString]. rewrite Enorm. auto.
 Qed.
+
+(* ---------- what parseHost lets through (used by C31): the result always passed validateIPv6Literal ---------- *)
+Lemma parseHost_validated h0 ph : parseHost h0 = UOk ph -> validateIPv6Literal ph = V6Nil.
+Proof.
+  assert (Hv : forall x, v6_then x = UOk ph -> validateIPv6Literal ph = V6Nil).
+  { intros x. unfold v6_then. destruct (validateIPv6Literal x) eqn:E; try discriminate. now intros [= <-]. }
+  assert (Hpl : forall x, plain x = UOk ph -> validateIPv6Literal ph = V6Nil).
+  { intros x. unfold plain. destruct (unescape x encodeHost); [apply Hv|discriminate]. }
+  unfold parseHost. fold (plain h0). destruct h0 as [|c0 t0]; [apply Hpl|].
+  destruct (c0 =? LBR).
+  - destruct (lastIdxByte (c0 :: t0) RBR) as [i|]; [|discriminate]. destruct (negb _); [discriminate|].
+    destruct (index _ strPct25) as [zone|]; [|apply Hpl].
+    destruct (unescape (firstn zone (c0 :: t0)) encodeHost); [|discriminate]. destruct (unescape (skipn zone _) encodeZone); [|discriminate].
+    destruct (unescape (skipn i (c0 :: t0)) encodeHost); [|discriminate]. apply Hv.
+  - destruct (_ || _); [discriminate|]. destruct (lastIdxByte (c0 :: t0) COLON) as [i|]; [|apply Hpl].
+    destruct (match idxByte _ COLON with Some _ => true | None => false end); [discriminate|]. destruct (negb _); [discriminate|]. apply Hpl.
+Qed.
+Lemma unescape_wf s m t : wf_bytes s -> unescape s m = UOk t -> wf_bytes t.
+Proof. unfold unescape. intros Hw. destruct (unescape_check s m); [discriminate|]. intros [= <-]. now apply (wf_decode _ s (le_n _)). Qed.
+Lemma parseHost_wf h0 ph : wf_bytes h0 -> parseHost h0 = UOk ph -> wf_bytes ph.
+Proof.
+  intros Hw.
+  assert (Hv : forall x, wf_bytes x -> v6_then x = UOk ph -> wf_bytes ph).
+  { intros x Hx. unfold v6_then. destruct (validateIPv6Literal x); try discriminate. now intros [= <-]. }
+  assert (Hpl : forall x, wf_bytes x -> plain x = UOk ph -> wf_bytes ph).
+  { intros x Hx. unfold plain. destruct (unescape x encodeHost) eqn:E; [|discriminate]. apply Hv. eapply unescape_wf; eauto. }
+  unfold parseHost. fold (plain h0). destruct h0 as [|c0 t0]; [now apply Hpl|].
+  destruct (c0 =? LBR).
+  - destruct (lastIdxByte (c0 :: t0) RBR) as [i|]; [|discriminate]. destruct (negb _); [discriminate|].
+    destruct (index _ strPct25) as [zone|]; [|now apply Hpl].
+    destruct (unescape (firstn zone (c0 :: t0)) encodeHost) eqn:E1; [|discriminate]. destruct (unescape (skipn zone _) encodeZone) eqn:E2; [|discriminate].
+    destruct (unescape (skipn i (c0 :: t0)) encodeHost) eqn:E3; [|discriminate]. apply Hv.
+    apply wf_app. split; [eapply unescape_wf; [|exact E1]; now apply Forall_firstn'|]. apply wf_app. split.
+    + eapply unescape_wf; [|exact E2]. apply Forall_skipn'. now apply Forall_firstn'.
+    + eapply unescape_wf; [|exact E3]. now apply Forall_skipn'.
+  - destruct (_ || _); [discriminate|]. destruct (lastIdxByte (c0 :: t0) COLON) as [i|]; [|now apply Hpl].
+    destruct (match idxByte _ COLON with Some _ => true | None => false end); [discriminate|]. destruct (negb _); [discriminate|]. now apply Hpl.
+Qed.
+
+Lemma cut_zone_mL a : wf_bytes a -> cut_zone (mL a) = (mL (fst (cut_zone a)), option_map mL (snd (cut_zone a))).
+Proof.
+  induction 1 as [|c s Hc Hs IH]; [reflexivity|]. change (mL (c :: s)) with (L c :: mL s). cbn [cut_zone]. rewrite keep37 by exact Hc.
+  destruct (c =? 37); [reflexivity|]. rewrite IH. destruct (cut_zone s) as [x z]. reflexivity.
+Qed.
+Lemma spec_v6_mL_zone a : wf_bytes a -> spec_ipv6 (mL a) = spec_ipv6 a.
+Proof.
+  intros Hw. unfold spec_ipv6. rewrite cut_zone_mL by exact Hw.
+  assert (Hwx : wf_bytes (fst (cut_zone a))).
+  { clear -Hw. induction Hw as [|c s Hc Hs IH]; [constructor|]. cbn [cut_zone]. destruct (c =? 37); [constructor|]. destruct (cut_zone s). cbn [fst] in *. now constructor. }
+  destruct (cut_zone a) as [x [z|]]; cbn [fst snd option_map].
+  - destruct z; [reflexivity|]. cbn [mL map]. now apply text_mL.
+  - now apply text_mL.
+Qed.
+
+(* every bracketed host a successful URI.parse leaves in Host() is "[" IPv6-address "]" optional-port *)
+Theorem uri_bracket_host_valid hostArg uri u t : wf_bytes hostArg -> wf_bytes uri -> parse hostArg uri = UOk u -> Host u = 91 :: t ->
+  exists a port, t = a ++ 93 :: port /\ ~ In 93 a /\ ~ In 93 port /\ is_port port = true /\ spec_ipv6 a = true.
+Proof.
+  intros Hwh Hwu Hp Eh. destruct (g_host u (parse_good _ _ _ Hwh Hwu Hp)) as (h0 & ph & Hw0 & Hph & E). unfold Host in Eh. rewrite E, lower_eq in Eh.
+  pose proof (parseHost_validated _ _ Hph) as Hv. pose proof (parseHost_wf _ _ Hw0 Hph) as Hwp.
+  destruct ph as [|p0 pt]; [discriminate|]. change (mL (p0 :: pt)) with (L p0 :: mL pt) in Eh. injection Eh as E0 Et.
+  apply wf_cons in Hwp as [Hp0 Hwt].
+  assert (p0 = 91) by (pose proof (keep91 p0 Hp0) as K; rewrite E0 in K; cbn in K; symmetry in K; now apply N.eqb_eq in K). subst p0.
+  assert (Hok : v6_ok (validateIPv6Literal (91 :: pt)) = true) by (now rewrite Hv).
+  destruct (ipv6_only_valid_gen _ Hwt Hok) as (a & port & -> & Hna & Hnp & Hport & Hs).
+  apply wf_app in Hwt as [Hwa Hwport]. apply wf_cons in Hwport as [_ Hwport].
+  exists (mL a), (mL port). rewrite <- Et, mL_app. cbn [mL map]. repeat split.
+  - apply notin_mL; auto. apply keep93.
+  - apply notin_mL; auto. apply keep93.
+  - destruct port as [|q0 qr]; [reflexivity|]. cbn [is_port] in Hport. apply andb_true_iff in Hport as [Hq0 Hqr]. apply N.eqb_eq in Hq0. subst q0.
+    change (mL (58 :: qr)) with (58 :: mL qr). now rewrite digits_mL.
+  - now rewrite spec_v6_mL_zone.
+Qed.
